@@ -229,5 +229,9 @@ VP_HARNESS(h_seed_wf)
 #if SEED == 7
   VP_CHECK(t->nb_levels == 3 && t->levels[1][0]->type == HWLOC_OBJ_CORE && t->level_nbobjects[1] == 2 && t->levels[1][0]->memory_arity == 1 && t->levels[1][1]->memory_arity == 1, "S7: a KEEP_STRUCTURE level that brings no structure is merged away and its memory children move to the kept objects");
 #endif
+#if SEED == 14
+  VP_CHECK(t->nb_levels == 3 && t->levels[1][0]->type == HWLOC_OBJ_PACKAGE && t->level_nbobjects[1] == 2 && t->levels[1][0]->misc_arity == 1 && t->levels[1][1]->misc_arity == 3 && t->levels[1][1]->memory_arity == 1,
+           "S14: a KEEP_STRUCTURE child level merged into its parents hands its Misc children over to them");
+#endif
   VP_WITNESS("seed checked");
 }
